@@ -172,7 +172,7 @@ theorem file_eq_memory (env : Env) (d0 : Disk) (m : Meta) (cmds : List Cmd) (hgo
 theorem pttempo_choice :
     flags.ptTempoChoice false false = .simple ∧ flags.ptTempoChoice true false = .fileTemp ∧
     (∀ truthy, flags.ptTempoChoice truthy true = .fileNamed) ∧
-    (∀ ovw, flags.ptTempoMode ovw = flags.exportMode ovw) ∧
+    (∀ ovw other, flags.ptTempoMode ovw other = flags.exportMode ovw) ∧
     flags.exportMode false = "write" ∧ flags.exportMode true = "overwrite" := by
   decide
 
